@@ -206,6 +206,8 @@ class Ace(AceBase):
             version=self.version,
             items=self._srcaddr.items,
             max_ncwb=self.max_ncwb,
+            uuid=self._srcaddr.uuid,
+            note=self._srcaddr.note,
         )
         self._dstaddr = Address(
             ace_d["dstaddr"],
@@ -213,6 +215,8 @@ class Ace(AceBase):
             version=self.version,
             items=self._dstaddr.items,
             max_ncwb=self.max_ncwb,
+            uuid=self._dstaddr.uuid,
+            note=self._dstaddr.note,
         )
         protocol_o = Protocol(
             line=ace_d["protocol"],
